@@ -16,9 +16,10 @@ V = os.path.dirname(os.path.dirname(os.path.abspath(__file__)))
 COQ = os.path.join(V, "coq")
 CASES = os.path.join(COQ, "Cases")
 HARNESS = os.path.join(V, "harness")
-TARGET = os.path.join(V, ".cache", "target")
-VH = os.path.join(TARGET, "debug", "vh")
-REPO = "/repo"
+TARGET = os.environ.get("CARGO_TARGET_DIR", os.path.join(V, ".cache", "target"))
+# /repo unless VERIF_REPO points at another checkout (scratch worktrees used while developing)
+REPO = os.environ.get("VERIF_REPO", "/repo")
+os.environ["VERIF_REPO"] = REPO
 
 ALLOWED_AXIOMS = {
     # the standard library's own axioms (Flocq / Reals / Program / Equations users); named in evidence
@@ -206,10 +207,25 @@ def build_props(pid, meta, log, jobs=16):
     return r
 
 
-def build_harness(log):
+def cargo_cfg():
+    c = "--config 'build.target-dir=\"%s\"'" % TARGET
+    if REPO != "/repo":
+        c += " --config 'paths=[\"%s/lib\"]'" % REPO
+    return c
+
+
+def build_harness(pid, log):
     t0 = time.time()
-    shutil.copyfile(os.path.join(REPO, "Cargo.lock"), os.path.join(HARNESS, "Cargo.lock"))
-    rc, out = sh("cargo build --offline -q 2>&1", cwd=HARNESS, timeout=1500)
+    try:
+        if open(os.path.join(REPO, "Cargo.lock")).read() != open(os.path.join(HARNESS, "Cargo.lock")).read():
+            shutil.copyfile(os.path.join(REPO, "Cargo.lock"), os.path.join(HARNESS, "Cargo.lock"))
+    except FileNotFoundError:
+        shutil.copyfile(os.path.join(REPO, "Cargo.lock"), os.path.join(HARNESS, "Cargo.lock"))
+    rc, out = sh("cargo build --offline -q %s --bin %s 2>&1" % (cargo_cfg(), pid.lower()), cwd=HARNESS, timeout=1500)
+    out = "\n".join(l for l in out.split("\n") if "unused" not in l)
+    m = re.search(r"^error.*(?:\n.*){0,12}", out, re.M)
+    if m:
+        out = m.group(0)
     log.append("cargo build rc=%d (%.1fs)" % (rc, time.time() - t0))
     return rc == 0, out[-3000:]
 
@@ -226,7 +242,7 @@ def parse_case_lines(text):
 
 
 def run_harness(pid, seed, n, tier, ids=None, timeout=1500):
-    cmd = [VH, pid, "--seed", str(seed), "--n", str(n), "--tier", tier]
+    cmd = [os.path.join(TARGET, "debug", pid.lower()), "--seed", str(seed), "--n", str(n), "--tier", tier]
     if ids:
         cmd += ["--ids", ids]
     rc, out = sh(cmd, cwd=V, timeout=timeout, env={"RUST_BACKTRACE": "0"})
@@ -334,7 +350,7 @@ def main():
                        "error": pr.get("error", "")[-1200:]})
 
     # 3. harness
-    ok, hout = build_harness(log)
+    ok, hout = build_harness(pid, log)
     cases, verdicts, outs, eval_errors = [], [], {}, []
     tags = {}
     if not ok:
